@@ -754,7 +754,7 @@ CANARIES = [
     {"name": "ShellCommandTrick ignores drop_during_process", "file": TR, "fn": "ShellCommandTrick.on_any_event", "find": "        if self.drop_during_process and self.is_process_running():\n            return\n", "replace": ""},
     {"name": "_restart_process ignores _is_trick_stopping", "file": TR, "fn": "AutoRestartTrick._restart_process", "find": "        if self._is_trick_stopping:\n            return\n        self._stop_process()", "replace": "        self._stop_process()"},
 ]
-TRUSTED = ["E7 threading.Condition (wait releases and re-acquires atomically; wait(timeout) returns False on time-out), threading.Event", "E11 process table: Popen creates a live child; poll()/wait() as documented; OSError from kill_process means the process is gone; SIGKILL ends it",
+TRUSTED = ["E7 threading.Condition (wait releases and re-acquires atomically; wait(timeout) returns False on time-out and then not before the timeout has passed; a wait returns True only if notified), threading.Event", "clocks (time.monotonic/time/perf_counter) never run backwards; instants are mathematical reals", "E11 process table: Popen creates a live child; poll()/wait() as documented; OSError from kill_process means the process is gone; SIGKILL ends it",
            "the callback of the debouncer is arbitrary user code observed through a ghost log"]
 ASSUMPTIONS = ["rely: other threads only run handle_event/stop sections on the debouncer (handled only grows, stop flag monotone)", "AutoRestartTrick contracts are sequential (single-threaded): its process / process_watcher fields are not lock-protected"]
 UNDECIDED_PARTS = ["'never more than one child alive' across the watcher thread and the event thread: no lock invariant exists to carry it (a suspected double-spawn interleaving is recorded in DESIGN.md section 6, not claimed)",
